@@ -104,7 +104,8 @@ def _case(draw, tier):
         c["n"] = draw(st.sampled_from([200, 50, 7, 2, 1]))
     if "E" in c:
         fv = rg.free_vars(c["E"])
-        k = draw(st.sampled_from([1, 1, 2, 3])) if kind in ("leaf", "bleaf") and c["regime"] != "density" else 1
+        k = draw(st.sampled_from([1, 1, 2, 3])) if kind in ("leaf", "bleaf") and c["regime"] != "density" else \
+            (draw(st.sampled_from([1, 2])) if kind == "comp" and c["regime"] != "density" and fv else 1)
         c["prows"] = {n: [[draw(specs.num(0, 1)) for _ in range(specs.PVARS[n])] for _ in range(k)] for n in sorted(fv)}
     return c
 
@@ -354,16 +355,19 @@ def _label(E, spec):
 
 def _overlap_union(E, penv, gen):
     """does the expression contain a union whose operands overlap (known finding D20)?"""
+    rows = rg.env_len(penv) if penv else 1
     for n in rg.walk(geo._strip_boundary(E)):
         if n["t"] == "union":
-            try:
-                pts = rg.sample_interior(n["a"], {k: v for k, v in penv.items()}, 400, gen)
-                env = {k: np.repeat(v, len(pts), axis=0) for k, v in penv.items()}
-                env[rg.space_vars(n)[0][0]] = pts
-                if rg.contains(n["b"], env).mean() > 0.02:
+            for r in range(rows):
+                pe = {k: v[r:r + 1] for k, v in penv.items()}
+                try:
+                    pts = rg.sample_interior(n["a"], pe, 400, gen)
+                    env = {k: np.repeat(v, len(pts), axis=0) for k, v in pe.items()}
+                    env[rg.space_vars(n)[0][0]] = pts
+                    if rg.contains(n["b"], env).mean() > 0.02:
+                        return True
+                except Exception:      # noqa: BLE001 - classification only
                     return True
-            except Exception:      # noqa: BLE001 - classification only
-                return True
     return False
 
 
@@ -400,6 +404,16 @@ def run_case(spec, ctx):
         # lengths as volume (documented estimate): known finding D37
         feat += "+nested"
         classes.append("nested-boolean-boundary")
+
+    if spec.get("warm", spec["rng"] % 2 == 0):
+        # the same domain object served a small request before (a law must not depend on what the object
+        # was asked earlier): two points per parameter row
+        core.seed_library(spec["rng"] + 5)
+        with ctx.lib("sample_random_uniform(warm-up n=2)", feature=feat):
+            with warnings.catch_warnings():
+                warnings.simplefilter("ignore")
+                D.sample_random_uniform(n=2, params=params)
+        classes.append("warm-up")
 
     def lib_sample(n, seed):
         core.seed_library(seed)
@@ -443,19 +457,35 @@ def run_case(spec, ctx):
         dim = sum(d for _, d in rg.space_vars(I))
         shape = _cells_for(min(dim, 3))
 
+        krows = geo.nrows(prows)
+
         def test(n, seed):
-            x = lib_sample(n, seed)
+            xall = lib_sample(n, seed)
             g = np.random.default_rng(seed + 17)
-            y, lo, hi = _ref_joint(E, penv, 4 * len(x), g)
-            d = min(dim, 3)
-            ux = ((x - lo) / (hi - lo))[:, :d]
-            uy = ((y - lo) / (hi - lo))[:, :d]
-            nc = int(np.prod(shape))
-            a = stats.counts_of(stats.cell_index(ux, shape), nc)
-            b = stats.counts_of(stats.cell_index(uy, shape), nc)
-            st_, df, p = stats.chi2_two_sample(a, b)
-            j = int(np.argmax(np.abs(a / a.sum() - b / b.sum())))
-            return st_, df, p, f"largest share gap in cell {j}: library {a[j] / a.sum():.4f} vs reference {b[j] / b.sum():.4f}"
+            if krows > 1 and ROWS[0] is None:
+                return 0.0, 0, 1.0, "row count not divisible by the number of parameter rows (C02)"
+            worst = None
+            # several parameter rows in one call: every row's block must follow the law of ITS row
+            for r in range(max(krows, 1)):
+                x = xall[ROWS[0] == r] if krows > 1 else xall
+                pe = {kk: v[r:r + 1] for kk, v in penv.items()} if krows > 1 else penv
+                if len(x) < 200:
+                    continue
+                y, lo, hi = _ref_joint(E, pe, 4 * len(x), g)
+                d = min(dim, 3)
+                ux = ((x - lo) / (hi - lo))[:, :d]
+                uy = ((y - lo) / (hi - lo))[:, :d]
+                nc = int(np.prod(shape))
+                a = stats.counts_of(stats.cell_index(ux, shape), nc)
+                b = stats.counts_of(stats.cell_index(uy, shape), nc)
+                st_, df, p = stats.chi2_two_sample(a, b)
+                p = min(1.0, p * max(krows, 1))          # Bonferroni over the rows
+                j = int(np.argmax(np.abs(a / a.sum() - b / b.sum())))
+                info = (f"parameter row {r}: " if krows > 1 else "") + \
+                    f"largest share gap in cell {j}: library {a[j] / a.sum():.4f} vs reference {b[j] / b.sum():.4f}"
+                if worst is None or p < worst[2]:
+                    worst = (st_, df, p, info)
+            return worst if worst is not None else (0.0, 0, 1.0, "too few rows")
         res = _two_stage(ctx, test, feat, "uniformity", N, spec)
     plain = kind == "leaf" and not (specs.features(E) & {"dep", "par-cw", "par-slanted", "poly", "mesh"})
     nontrivial = (not plain or spec["regime"] == "small") and res.get("df", 0) >= 15
@@ -725,7 +755,21 @@ def extra_cases(tier, seed):
     tdep = {"t": "product", "a": {"t": "circle", "var": "x", "c": C(0.0, 0.0),
                                    "r": {"k": "affine", "var": "t", "v0": [0.3], "V1": [[1.0]]}},
             "b": {"t": "interval", "var": "t", "lo": C(0.0), "hi": C(1.0)}}
-    out.append({"kind": "comp", "dkind": "depproduct", "regime": "large", "nsmall": 1, "rng": seed * 100 + 60, "E": tdep, "prows": {}})
+    out.append({"kind": "comp", "dkind": "depproduct", "regime": "large", "nsmall": 1, "rng": seed * 100 + 60, "E": tdep, "prows": {},
+                "warm": True})
+    out.append({"kind": "comp", "dkind": "depproduct", "regime": "large", "nsmall": 1, "rng": seed * 100 + 61, "E": tdep, "prows": {},
+                "warm": False})
+    # polygon with boundary edges that are not edges of the Delaunay triangulation of its vertices
+    slit = {"t": "poly", "var": "x", "hole": None,
+            "verts": [[-1, 0], [10, 0], [10, 0.8], [5.5, 0.8], [5, 0.95], [4.5, 0.8], [0, 0.8], [0, 1], [10, 1], [10, 1.2], [5, 1.25], [-1, 1.2]]}
+    out.append({"kind": "comp", "regime": "large", "nsmall": 1, "rng": seed * 100 + 62, "E": slit, "prows": {}, "warm": False})
+    # two parameter rows in one call with different volume ratios of the parts of a (disjoint) union
+    grow = {"k": "affine", "var": "p", "v0": [0.3], "V1": [[1.5]]}
+    un = {"t": "union", "disjoint": False, "a": {"t": "circle", "var": "x", "c": C(0.0, 0.0), "r": grow},
+          "b": {"t": "par", "var": "x", "o": C(2.5, -0.5), "c1": C(3.5, -0.5), "c2": C(2.5, 0.5)}}
+    for j, regime in enumerate(("large", "small")):
+        out.append({"kind": "comp", "regime": regime, "nsmall": 3, "rng": seed * 100 + 64 + j, "E": un,
+                    "prows": {"p": [[0.0], [1.0]]}, "warm": False})
     for j, shape in enumerate(["interval", "rect", "disc"]):
         out.append({"kind": "gauss", "regime": "large", "nsmall": 1, "rng": seed * 100 + 70 + j, "shape": shape,
                     "cen": [1.0, -2.0], "size": 2.0, "off": [0.2, -0.1], "std": 0.5, "k": 0})
